@@ -5,12 +5,20 @@ source, as pyecoregen would write it) — and the same history is run on each.
 Oracle: the three traces (outcome class, full dump, notifications, reflective
 views) coincide call by call, the reflective descriptions coincide, and a
 document saved by one rendering loads into an isomorphic model with another.
-Correspondence: every rendering against the one kernel model run."""
+Correspondence: every rendering against the one kernel model run.
+First half of the property (the same reflective description): for every kernel
+metamodel description, for generated richer descriptions (harness/staticdecl.py:
+abstract classes, diamonds, bounds, defaults, symmetric opposites, operations)
+and for arbitrary class bodies, the description reflected from the REAL static
+module (both styles) and from the REAL dynamic construction equals
+run_staticdecl (Model/StaticDecl.v) on the same abstract description; the
+oracle there: static and dynamic reflect the same ORDERED description."""
 import copy
 import os
 import tempfile
 
 from harness import common, kgen, kmodel, kprop, krun
+from harness import staticdecl as sd
 
 PID = 'C13'
 RENDERINGS = ['dynamic', 'static-meta', 'static-decorator', 'mixed']
@@ -127,11 +135,173 @@ def cross_load(case, src_render, dst_render):
         return canon(reload(src_render)), canon(reload(dst_render))
 
 
+# ---------------------------------------------------------------- first half: the same reflective description
+NAMING = [('__x', 'private-feature-name'), ('__secret_1', 'private-feature-name'), ('eClass', 'reserved-feature-name'),
+          ('dyn_inst', 'reserved-feature-name'), ('_staticEClass', 'reserved-feature-name'),
+          ('__x__', None), ('_y', None), ('class_', None)]
+
+
+def new_sdstats():
+    return {'cases': 0, 'by_source': {}, 'by_style': {'static-meta': 0, 'static-decorator': 0, 'dynamic': 0},
+            'classes_per_case': {}, 'features_per_class': {}, 'cases_meeting_theorem_premises': 0,
+            'with_opposites': 0, 'with_defaults': 0, 'with_diamond': 0, 'with_abstract': 0,
+            'body_cases': 0, 'body_python_raised': 0, 'body_entries': {}, 'naming_cases': 0, 'model_calls': 0}
+
+
+def eclasses_of(world, mm):
+    out = []
+    for c in mm['classes']:
+        x = world.classes[c['name']]
+        out.append(x.eClass if not hasattr(x, 'eStructuralFeatures') else x)
+    return out
+
+
+def sd_real(D, deco, intern):
+    """(description reflected from the real static module, from the real dynamic construction);
+    a string instead of a description when the construction raises"""
+    try:
+        mod = sd.execute(sd.source(D, deco), 'd' if deco else 'm')
+        try:
+            rs = sd.reflect([mod.__dict__[c['name']].eClass for c in D['classes']], intern)
+        finally:
+            sd.forget(mod)
+    except Exception as e:  # noqa
+        rs = 'raised ' + type(e).__name__
+    try:
+        rd = sd.reflect(sd.build_dynamic(D), intern)
+    except Exception as e:  # noqa
+        rd = 'raised ' + type(e).__name__
+    return rs, rd
+
+
+def sd_count(st, D, source, wf):
+    st['cases'] += 1
+    st['by_source'][source] = st['by_source'].get(source, 0) + 1
+    st['cases_meeting_theorem_premises'] += int(wf)
+    k = str(len(D['classes']))
+    st['classes_per_case'][k] = st['classes_per_case'].get(k, 0) + 1
+    for c in D['classes']:
+        k = str(len(c['features']))
+        st['features_per_class'][k] = st['features_per_class'].get(k, 0) + 1
+    st['with_opposites'] += any(fd.get('opposite') for c in D['classes'] for fd in c['features'])
+    st['with_defaults'] += any(fd.get('default') is not None for c in D['classes'] for fd in c['features'])
+    st['with_diamond'] += any(len(c['supers']) > 1 for c in D['classes'])
+    st['with_abstract'] += any(c['abstract'] for c in D['classes'])
+
+
+def sd_compare(out, what, real, modelled, case):
+    if real != modelled:
+        bad = next((f'class {a["name"]}: real {a} vs model {b}' for a, b in zip(real, modelled or []) if a != b), None) \
+            if isinstance(real, list) and isinstance(modelled, list) else None
+        out.diff(f'{what}: ' + (bad or f'real {str(real)[:300]} vs model {str(modelled)[:300]}'), case)
+        return False
+    return True
+
+
+def staticdecl_kernel_case(out, model, case, worlds, st):
+    """the kernel case's metamodel: real worlds of harness/kimpl.py + harness/kstatic.py against the model"""
+    D = sd.from_kgen(case['mm'])
+    for render, deco in (('static-meta', False), ('static-decorator', True)):
+        it = sd.Interner()
+        real_s = sd.reflect(eclasses_of(worlds[render], case['mm']), it)
+        real_d = sd.reflect(eclasses_of(worlds['dynamic'], case['mm']), it)
+        wf, ms, md, ca = sd.ask_descr(model, D, deco, it)
+        st['model_calls'] += 1
+        rep = {'staticdecl': D, 'deco': deco}
+        if not wf:
+            out.diff('a kernel metamodel description does not meet wf_descr (the theorem premise)', rep)
+        sd_compare(out, f'reflective description, {render} (kstatic) vs model', real_s, ms, rep)
+        sd_compare(out, 'reflective description, dynamic (kimpl) vs model', real_d, md, rep)
+        if wf and (ms != ca or md != ca):
+            out.diff('model: description read back differs from the canonical description (theorem contradicted)', rep)
+        st['by_style'][render] += 1
+        st['by_style']['dynamic'] += 1
+        sd_count(st, D, 'kernel-metamodel', wf)
+
+
+def staticdecl_generated(ctx, out, model, st, n):
+    """generated descriptions (abstract classes, diamonds, bounds, defaults, opposites, operations), both styles"""
+    for _ in range(n):
+        D = sd.gen_descr(ctx.rng)
+        for render, deco in (('static-meta', False), ('static-decorator', True)):
+            it = sd.Interner()
+            rs, rd = sd_real(D, deco, it)
+            wf, ms, md, ca = sd.ask_descr(model, D, deco, it)
+            st['model_calls'] += 1
+            rep = {'staticdecl': D, 'deco': deco}
+            if not wf:
+                out.diff('a generated description does not meet wf_descr (the theorem premise)', rep)
+            sd_compare(out, f'reflective description, {render} vs model', rs, ms, rep)
+            sd_compare(out, 'reflective description, dynamic vs model', rd, md, rep)
+            if wf and (ms != ca or md != ca):
+                out.diff('model: description read back differs from the canonical description (theorem contradicted)', rep)
+            if rs != rd:
+                cn = next((a['name'] for a, b in zip(rs, rd) if a != b), '?') if isinstance(rs, list) and isinstance(rd, list) else '?'
+                out.fail({'property': PID, 'clause': 'reflective-description', 'render': render},
+                         f'class {cn}: {render} and dynamic reflect different descriptions: {str(rs)[:200]} vs {str(rd)[:200]}', rep)
+            st['by_style'][render] += 1
+            st['by_style']['dynamic'] += 1
+            sd_count(st, D, 'generated', wf)
+
+
+def staticdecl_naming(out, model, st):
+    """feature names at the border of wf_descr: the two known findings, and names that must be fine"""
+    def feat(n):
+        return {'name': n, 'kind': 'attr', 'type': 'EString', 'lower': 0, 'upper': 1, 'ordered': True, 'unique': True,
+                'containment': False, 'opposite': None, 'default': None}
+    for nm, qualifier in NAMING:
+        D = {'enums': [], 'classes': [{'name': 'A', 'abstract': False, 'supers': [], 'operations': [],
+                                       'features': [feat('a'), feat(nm), feat('b')]}]}
+        for render, deco in (('static-meta', False), ('static-decorator', True)):
+            it = sd.Interner()
+            rs, rd = sd_real(D, deco, it)
+            wf, ms, md, ca = sd.ask_descr(model, D, deco, it)
+            st['model_calls'] += 1
+            st['naming_cases'] += 1
+            rep = {'staticdecl': D, 'deco': deco}
+            sd_compare(out, f'reflective description of a feature named {nm!r}, {render} vs model', rs, ms, rep)
+            sd_compare(out, f'reflective description of a feature named {nm!r}, dynamic vs model', rd, md, rep)
+            if wf != (qualifier is None and not nm.startswith('__')):
+                out.diff(f'wf_descr says {wf} for a feature named {nm!r}', rep)
+            if rs != rd:
+                sig = {'property': PID, 'clause': 'reflective-description', 'render': render}
+                if qualifier:
+                    sig = {'property': PID, 'clause': 'reflective-description', 'qualifiers': [qualifier]}
+                out.fail(sig, f'feature {nm!r}: {render} reflects {[f[0] for f in rs[0]["features"]]}, '
+                              f'dynamic {[f[0] for f in rd[0]["features"]]}', rep)
+
+
+def staticdecl_bodies(ctx, out, model, st, n):
+    """arbitrary class bodies (explicit names, private and dunder keys, overwritten keys, names _promote assigns,
+    methods, static methods, other values; eType / eOpposite statements in any order): what _promote takes and
+    what it never takes, real module against the model"""
+    for _ in range(n):
+        M = sd.gen_module(ctx.rng)
+        it = sd.Interner()
+        try:
+            mod = sd.execute(sd.module_source(M), 'b')
+            try:
+                real = sd.reflect([mod.__dict__[c['name']].eClass for c in M['classes']], it)
+            finally:
+                sd.forget(mod)
+        except Exception:  # noqa
+            real = None
+            st['body_python_raised'] += 1
+        mo = sd.ask_module(model, M, it)
+        st['model_calls'] += 1
+        st['body_cases'] += 1
+        for c in M['classes']:
+            for e in c['body']:
+                st['body_entries'][e['kind']] = st['body_entries'].get(e['kind'], 0) + 1
+        sd_compare(out, 'class bodies: promoted description (None = the module raises) vs model', real, mo, {'module': M})
+
+
 def run(ctx, out):
     thorough = ctx.tier == 'thorough'
     n = 250 if not thorough else 4000
     model = common.Model()
     stats = {'cases': 0, 'calls': 0, 'cross_loads': 0, 'ops': {}}
+    sdstats = new_sdstats()
     samples = []
     distinct = set()
     from harness import kimpl
@@ -191,12 +361,14 @@ def run(ctx, out):
             stats['calls'] += 3
             stats['ops'][s['op'][0]] = stats['ops'].get(s['op'][0], 0) + 1
         # reflective descriptions
-        descs = {}
+        descs, worlds = {}, {}
         for render in RENDERINGS:
             c2 = copy.deepcopy(case)
             set_render(c2, render)
             c2['history'] = []
-            descs[render] = description(kimpl.World(c2, observers=False))
+            worlds[render] = kimpl.World(c2, observers=False)
+            descs[render] = description(worlds[render])
+        staticdecl_kernel_case(out, model, case, worlds, sdstats)
         for render in RENDERINGS[1:]:
             if descs[render] != descs['dynamic']:
                 cn = next(k for k in descs['dynamic'] if descs['dynamic'][k] != descs[render].get(k))
@@ -217,7 +389,11 @@ def run(ctx, out):
                              f'{src}->{dst}: {type(e).__name__}: {e}', case)
         if len(samples) < 3 and len(case['history']) > 3:
             samples.append({'templates': case['templates'], 'history': case['history']})
+    staticdecl_generated(ctx, out, model, sdstats, 120 if not thorough else 1500)
+    staticdecl_naming(out, model, sdstats)
+    staticdecl_bodies(ctx, out, model, sdstats, 150 if not thorough else 3000)
     model.close()
+    out.coverage.update({'staticdecl_' + k: v for k, v in sdstats.items()})
     out.coverage.update({
         'evaluations': stats['cases'] * 3, 'distinct_nontrivial': len(distinct),
         'rule': 'a case = generated metamodel description + history, rendered 3 ways (dynamic, MetaEClass, '
@@ -225,12 +401,22 @@ def run(ctx, out):
         'traces_validated_against_impl': stats['cases'] * 3, 'calls_executed': stats['calls'],
         'cross_loads': stats['cross_loads'], 'ops_by_kind': stats['ops'], 'samples': samples,
     })
-    out.assumptions += ['static classes are generated source text executed in a fresh module (pyecoregen layout)',
+    out.assumptions += ['reflective description: Python accepts the bases of every generated class statement (C3 is asked to '
+                        'Python beforehand); feature objects are not aliased between class bodies',
+                        'static classes are generated source text executed in a fresh module (pyecoregen layout)',
                         'delete(): notification order compared as a multiset of individual changes']
 
 
 def replay(ctx, rep):
     case = rep['case']
+    if 'staticdecl' in case:
+        D, deco = case['staticdecl'], case['deco']
+        it = sd.Interner()
+        rs, rd = sd_real(D, deco, it)
+        print('static :', [(c['name'], [f[0] for f in c['features']]) for c in rs] if not isinstance(rs, str) else rs)
+        print('dynamic:', [(c['name'], [f[0] for f in c['features']]) for c in rd] if not isinstance(rd, str) else rd)
+        print('REPRODUCED' if rs != rd else 'not reproduced')
+        return 1 if rs != rd else 0
     res = {}
     for render in RENDERINGS:
         c2 = copy.deepcopy(case)
